@@ -22,6 +22,7 @@ let fval_of kind (v : string) : fval =
   | 1 -> VU8 (nn v) | 2 -> VU16 (nn v) | 3 -> VU32 (nn v)
   | 4 -> VNameLc (labels_of_wire (b v)) | 5 -> VNameRaw (labels_of_wire (b v))
   | 6 -> VStr (b v) | 7 -> VOcts (b v) | 8 -> VPfx (b v) | 9 -> VBitmap (b v)
+  | 10 -> VAddr4 (b v) | 11 -> VAddr16 (b v) | 12 -> VU48 (nn v) | 13 -> VOcts16 (b v)
   | _ -> failwith "bad kind"
 let show_tok = function
   | TB v -> Printf.sprintf "b%02x" (int_of_n v)
@@ -55,18 +56,33 @@ let fval_tagged (t : string) : fval =
   | '4' -> VAddr4 (b v) | '6' -> VAddr16 (b v) | 'l' -> VOcts16 (b v)
   | _ -> failwith "bad value tag"
 let un k w = if k = "abs" then UAbs (b w) else URel (b w)
+let reco code rest =
+  let kinds = c04_rd_kinds (nn code) in
+  let (va, vb) = split_bar [] rest in
+  (match va, vb with
+   | oa :: ca :: va', ob :: cb :: vb' when List.length va' = List.length kinds && List.length vb' = List.length kinds ->
+       let a = List.map2 fval_of kinds va' and bb = List.map2 fval_of kinds vb' in
+       let oc = function Some c -> str_cmp c | None -> "None" in
+       let (na, nb) = (labels_of_wire (b oa), labels_of_wire (b ob)) in
+       sb (c04_record_eq (nn code) na (nn ca) a nb (nn cb) bb) ^ " " ^ oc (c04_record_cmp (nn code) na (nn ca) a nb (nn cb) bb)
+         ^ " " ^ oc (c04_record_partial (nn code) na (nn ca) a nb (nn cb) bb)
+         ^ " " ^ String.concat "," (List.map show_tok (c04_record_hash (nn code) na (nn ca) a))
+   | _ -> "BAD-ARITY")
 let handle = function
   | "rdx" :: code :: rest -> rdx code rest
+  | "reco" :: code :: rest -> reco code rest
+  | ["stdlower"; x] -> string_of_int (int_of_n (c04_std_lower (nn x)))
   | "rdh" :: code :: rest ->
       let h = c04_rdh (nn code) (List.map fval_tagged rest) in String.concat "," (List.map show_tok h)
+  | ["nacc"; x] -> sb (c04_accepts (b x))
   | ["nord"; x; y] -> oc (c04_name_ord (b x) (b y))
   | ["req"; x; y] -> ob (c04_relname_eq (b x) (b y))
   | ["rord"; x; y] -> oc (c04_relname_ord (b x) (b y))
   | ["rhash"; x] -> oh (c04_name_hash (b x))
   | ["ueq"; k1; w1; k2; w2] -> ob (c04_uncertain_eq (un k1 w1) (un k2 w2))
   | ["uhash"; k1; w1] -> oh (c04_uncertain_hash (un k1 w1))
-  | ["psuf"; m; p; k; y] ->
-      (match c04_parsed_suffix (b m) (nn p) (nat_of_int (int_of_string k)) (b y) with
+  | [("psuf" | "ssuf") as w; m; p; k; y] ->
+      (match (if w = "psuf" then c04_parsed_suffix else c04_parsed_suffix_split) (b m) (nn p) (nat_of_int (int_of_string k)) (b y) with
        | Ok ((((e, c), cc), lc), h) -> "Ok " ^ sb e ^ " " ^ str_cmp c ^ " " ^ str_cmp cc ^ " " ^ str_cmp lc ^ " " ^ hex_of_bytes h
        | _ -> "Panic")
   | ["pzone"; x; y] -> str_ocmp (c04_zonemd_partial (nn x) (nn y))
@@ -74,7 +90,9 @@ let handle = function
   | ["pnsec3"; x; y] -> str_ocmp (c04_nsec3_partial (b x) (b y))
   | ["hdr"; o1; t1; c1; l1; r1; o2; t2; c2; l2; r2] ->
       let (x, y) = (mkh o1 t1 c1 l1 r1, mkh o2 t2 c2 l2 r2) in
-      sb (c04_header_eq x y) ^ " " ^ str_cmp (c04_header_cmp x y)
+      sb (c04_header_eq x y) ^ " " ^ str_cmp (c04_header_cmp x y) ^ " " ^ String.concat "," (List.map show_tok (c04_header_hash x))
+  | ["preq"; o1; t1; c1; l1; r1; d1; o2; t2; c2; l2; r2; d2] ->
+      sb (c04_parsed_record_eq (mkh o1 t1 c1 l1 r1) (b d1) (mkh o2 t2 c2 l2 r2) (b d2))
   | ["lower"; x] -> string_of_int (int_of_n (c04_lower (nn x)))
   | ["leq"; x; y] -> sb (c04_label_eq (b x) (b y))
   | ["lcmp"; x; y] -> str_cmp (c04_label_cmp (b x) (b y))
